@@ -79,7 +79,7 @@ SetOpsDef == {<<"null", 0>>, <<"bool", TRUE>>, <<"bool", FALSE>>, <<"int", <<45,
               <<"uint", <<49, 56, 52, 52, 54, 55, 52, 52, 48, 55, 51, 55, 48, 57, 53, 53, 49, 54, 49, 53>>>>,
               <<"uint", <<55>>>>,       \* an unsigned tag holding a value that also fits int64 (only SetUInt produces that)
               <<"float", <<48, 46, 53>>>>, <<"str", <<122, 9>>>>, <<"str", <<>>>>}
-SetOpsSmall == {<<"null", 0>>, <<"bool", TRUE>>, <<"int", <<45, 55>>>>, <<"uint", <<55>>>>, <<"float", <<48, 46, 53>>>>, <<"str", <<122, 9>>>>}
+SetOpsSmall == {<<"null", 0>>, <<"bool", TRUE>>, <<"bool", FALSE>>, <<"int", <<45, 55>>>>, <<"uint", <<55>>>>, <<"float", <<48, 46, 53>>>>, <<"str", <<122, 9>>>>}
 \* three-operation histories on a few documents; one replacement string is longer than the initial string buffer (128 bytes)
 LongStr == [i \in 1..150 |-> 97 + (i % 26)]
 DocsTiny == {<<<<"a", <<sa, i1, <<"o", <<<<ka, sq>>, <<kb, n>>>>>>>>>>>>, <<<<"o", <<<<ka, <<"a", <<i1, sa>>>>>>, <<kb, f25>>>>>>>>,
